@@ -2,6 +2,7 @@ package main
 
 import (
 	"go/token"
+	"go/types"
 	"strings"
 
 	"golang.org/x/tools/go/ssa"
@@ -83,17 +84,40 @@ func (p *Program) goroutinePairing(fn *ssa.Function) []pairResult {
 	collect(fn)
 	ranged := map[string]token.Pos{} // channel name -> position of the range
 	closers := map[string][]*ssa.Function{}
+	closedByCallee := map[string]bool{}
 	for _, f := range all {
 		ff := p.Facts(f)
 		for _, b := range f.Blocks {
 			for _, in := range b.Instrs {
 				// range over channel: v, ok := <-ch in a loop header  (UnOp ARROW CommaOk)
 				if u, ok := in.(*ssa.UnOp); ok && u.Op == token.ARROW && u.CommaOk && ff.innermost[b] != nil {
-					ranged[chanName(ff.Term(u.X))] = u.Pos()
+					ranged[varName(ff, u.X)] = u.Pos()
 				}
 				if cc := commonOf(in); cc != nil && calleeName(cc) == "close" && len(cc.Args) == 1 {
-					n := chanName(ff.Term(cc.Args[0]))
+					n := varName(ff, cc.Args[0])
 					closers[n] = append(closers[n], f)
+				}
+				if c, ok := in.(*ssa.Call); ok {
+					if callee := c.Call.StaticCallee(); callee != nil && callee.Blocks != nil && InModule(callee) {
+						cf := p.Facts(callee)
+						for k, a := range c.Call.Args {
+							if _, isChan := a.Type().Underlying().(*types.Chan); !isChan || k >= len(callee.Params) {
+								continue
+							}
+							pname := callee.Params[k].Name()
+							okc, _ := mustExecOnAllExits(callee, func(i ssa.Instruction) bool {
+								return callOrDeferOf(i, "close", func(v ssa.Value) string { return varName(cf, v) }, pname)
+							})
+							if okc {
+								// the callee closes it on all exits; the caller must reach this call on all its exits
+								n := varName(ff, a)
+								okReach, _ := mustExecOnAllExits(f, func(i ssa.Instruction) bool { return i == in })
+								if okReach {
+									closedByCallee[n] = true
+								}
+							}
+						}
+					}
 				}
 				g, isGo := in.(*ssa.Go)
 				if !isGo {
@@ -112,7 +136,7 @@ func (p *Program) goroutinePairing(fn *ssa.Function) []pairResult {
 							continue
 						}
 						if c, ok := bb.Instrs[i].(*ssa.Call); ok && calleeName(&c.Call) == "sync.WaitGroup.Add" {
-							wg = chanName(ff.Term(c.Call.Args[0]))
+							wg = varName(ff, c.Call.Args[0])
 							break
 						}
 					}
@@ -122,7 +146,7 @@ func (p *Program) goroutinePairing(fn *ssa.Function) []pairResult {
 				}
 				gff := p.Facts(gf)
 				ok2, pos := mustExecOnAllExits(gf, func(i ssa.Instruction) bool {
-					return callOrDeferOf(i, "sync.WaitGroup.Done", func(v ssa.Value) string { return chanName(gff.Term(v)) }, wg)
+					return callOrDeferOf(i, "sync.WaitGroup.Done", func(v ssa.Value) string { return varName(gff, v) }, wg)
 				})
 				why := "wg.Done is executed on every exit path"
 				if !ok2 {
@@ -134,6 +158,10 @@ func (p *Program) goroutinePairing(fn *ssa.Function) []pairResult {
 	}
 	for ch, pos := range ranged {
 		cl := closers[ch]
+		if len(cl) == 0 && closedByCallee[ch] {
+			out = append(out, pairResult{Desc: FnName(fn) + ": channel " + ch + " (ranged over by a worker) is closed on all exits of the callee it is handed to", Pos: pos, OK: true, Why: "callee closes its parameter by defer / on every exit, and the call is reached on every exit of the goroutine"})
+			continue
+		}
 		if len(cl) == 0 {
 			out = append(out, pairResult{Desc: FnName(fn) + ": channel " + ch + " is ranged over but never closed", Pos: pos, OK: false, Why: "the ranging goroutine never terminates"})
 			continue
@@ -141,7 +169,7 @@ func (p *Program) goroutinePairing(fn *ssa.Function) []pairResult {
 		for _, cf := range cl {
 			cff := p.Facts(cf)
 			ok2, epos := mustExecOnAllExits(cf, func(i ssa.Instruction) bool {
-				return callOrDeferOf(i, "close", func(v ssa.Value) string { return chanName(cff.Term(v)) }, ch)
+				return callOrDeferOf(i, "close", func(v ssa.Value) string { return varName(cff, v) }, ch)
 			})
 			why := "close is executed on every exit path of the closing goroutine"
 			if !ok2 {
@@ -171,6 +199,41 @@ func chanName(t string) string {
 		t = strings.TrimPrefix(t, p)
 	}
 	return t
+}
+
+// varName renders v in fn with parameters spelled by their source names, so that
+// "$0.wg" in a method and "^pool.wg" in its closure coincide as "pool.wg".
+func varName(ff *FuncFacts, v ssa.Value) string {
+	t := chanName(ff.Term(v))
+	for i, prm := range ff.Fn.Params {
+		pre := "$" + fmtInt(i)
+		if t == pre {
+			return prm.Name()
+		}
+		if strings.HasPrefix(t, pre+".") || strings.HasPrefix(t, pre+"[") {
+			return prm.Name() + t[len(pre):]
+		}
+	}
+	return t
+}
+
+func fmtInt(n int) string {
+	if n == 0 {
+		return "0"
+	}
+	s := ""
+	neg := n < 0
+	if neg {
+		n = -n
+	}
+	for n > 0 {
+		s = string(rune('0'+n%10)) + s
+		n /= 10
+	}
+	if neg {
+		s = "-" + s
+	}
+	return s
 }
 
 // lockDiscipline: every method of the named struct type that touches one of the
@@ -251,6 +314,244 @@ func (p *Program) lockDiscipline(pkgShort, typeName string, fields []string, loc
 		}
 		st := derefStruct(fas[0].X.Type())
 		out = append(out, lockResult{Fn: fn, Field: st.Field(fas[0].Field).Name(), Pos: fas[0].Pos(), OK: ok, Why: why})
+	}
+	return out
+}
+
+// strandContext: fields owned by the strand goroutine may be touched only (a) inside
+// closures passed to strandCallee, (b) in functions all of whose callers are in
+// context, (c) in allowedFns (constructor / after-shutdown code, listed with reason).
+func (p *Program) strandContext(pkgShort, typeName string, fields []string, strandCallee string, allowedFns map[string]string) []lockResult {
+	prot := map[string]bool{}
+	for _, f := range fields {
+		prot[f] = true
+	}
+	inCtx := map[*ssa.Function]bool{}
+	for _, fn := range p.ModFns {
+		for _, b := range fn.Blocks {
+			for _, in := range b.Instrs {
+				c, ok := in.(*ssa.Call)
+				if !ok || calleeName(&c.Call) != strandCallee {
+					continue
+				}
+				for _, a := range c.Call.Args {
+					if mc, ok := a.(*ssa.MakeClosure); ok {
+						inCtx[mc.Fn.(*ssa.Function)] = true
+					}
+				}
+			}
+		}
+	}
+	for name := range allowedFns {
+		if f := p.Fn(name); f != nil && strings.Contains(allowedFns[name], "strandDone") {
+			inCtx[f] = true // runs after the strand goroutine has finished
+		}
+	}
+	touch := map[*ssa.Function]*ssa.FieldAddr{}
+	for _, fn := range p.ModFns {
+		if !strings.HasPrefix(FnName(fn), pkgShort+".") {
+			continue
+		}
+		for _, b := range fn.Blocks {
+			for _, in := range b.Instrs {
+				fa, ok := in.(*ssa.FieldAddr)
+				if !ok {
+					continue
+				}
+				st := derefStruct(fa.X.Type())
+				if st == nil || !prot[st.Field(fa.Field).Name()] || !strings.HasSuffix(typeShort(fa.X.Type()), pkgShort+"."+typeName) {
+					continue
+				}
+				if _, fresh := fa.X.(*ssa.Alloc); fresh {
+					continue
+				}
+				if touch[fn] == nil {
+					touch[fn] = fa
+				}
+			}
+		}
+	}
+	changed := true
+	for changed {
+		changed = false
+		for _, fn := range p.ModFns {
+			if inCtx[fn] || !strings.HasPrefix(FnName(fn), pkgShort+".") {
+				continue
+			}
+			callers := p.Callers(fn)
+			if len(callers) == 0 {
+				continue
+			}
+			all := true
+			for _, c := range callers {
+				if !inCtx[c] {
+					all = false
+				}
+			}
+			if all {
+				inCtx[fn] = true
+				changed = true
+			}
+		}
+	}
+	var out []lockResult
+	for fn, fa := range touch {
+		st := derefStruct(fa.X.Type())
+		name := st.Field(fa.Field).Name()
+		if why, ok := allowedFns[FnName(fn)]; ok {
+			out = append(out, lockResult{Fn: fn, Field: name, Pos: fa.Pos(), OK: true, Why: "reviewed: " + why})
+			continue
+		}
+		if inCtx[fn] {
+			out = append(out, lockResult{Fn: fn, Field: name, Pos: fa.Pos(), OK: true, Why: "runs on the strand (closure passed to " + strandCallee + " or called only from such closures / after the strand finished)"})
+			continue
+		}
+		var names []string
+		for _, c := range p.Callers(fn) {
+			names = append(names, FnName(c))
+		}
+		out = append(out, lockResult{Fn: fn, Field: name, Pos: fa.Pos(), OK: false, Why: "touches strand-owned state outside the strand (callers: " + strings.Join(names, ", ") + ")"})
+	}
+	return out
+}
+
+// strandHandoff: a variable written inside a closure passed to strandCallee is read by
+// the enclosing function after the call only where the call's error is known nil.
+func (p *Program) strandHandoff(strandCallee string, pkgShort string) []lockResult {
+	var out []lockResult
+	for _, fn := range p.ModFns {
+		if !strings.HasPrefix(FnName(fn), pkgShort+".") {
+			continue
+		}
+		ff := p.Facts(fn)
+		for _, b := range fn.Blocks {
+			for _, in := range b.Instrs {
+				c, ok := in.(*ssa.Call)
+				if !ok || calleeName(&c.Call) != strandCallee {
+					continue
+				}
+				var mc *ssa.MakeClosure
+				for _, a := range c.Call.Args {
+					if m, ok := a.(*ssa.MakeClosure); ok {
+						mc = m
+					}
+				}
+				if mc == nil {
+					continue
+				}
+				cl := mc.Fn.(*ssa.Function)
+				okAtom := "ok(" + ff.Term(c) + ")"
+				for bi, bind := range mc.Bindings {
+					al, ok := bind.(*ssa.Alloc)
+					if !ok {
+						continue
+					}
+					fv := cl.FreeVars[bi]
+					written := false
+					for _, rf := range *fv.Referrers() {
+						if st, ok := rf.(*ssa.Store); ok && st.Addr == fv {
+							written = true
+						}
+					}
+					if !written {
+						continue
+					}
+					after := ff.reachFrom(c.Block(), nil)
+					for _, rf := range *al.Referrers() {
+						ld, ok := rf.(*ssa.UnOp)
+						if !ok || ld.Op != token.MUL || !after[ld.Block()] {
+							continue
+						}
+						if ld.Block() == c.Block() {
+							seenCall, isAfter := false, false
+							for _, bi := range c.Block().Instrs {
+								if bi == ssa.Instruction(c) {
+									seenCall = true
+								}
+								if bi == ssa.Instruction(ld) {
+									isAfter = seenCall
+								}
+							}
+							if !isAfter {
+								continue
+							}
+						}
+						good := false
+						for _, a := range ff.Must(ld.Block()) {
+							if a.S == okAtom {
+								good = true
+							}
+						}
+						why := "read only after the strand call returned nil"
+						if !good {
+							why = "variable " + allocName(al) + " is written by the strand closure and read here even when " + strandCallee + " returned an error (on shutdown the closure may still be running: data race)"
+						}
+						out = append(out, lockResult{Fn: fn, Field: allocName(al), Pos: ld.Pos(), OK: good, Why: why})
+					}
+				}
+			}
+		}
+	}
+	return out
+}
+
+// sendCapacity: for every buffered channel made in fn with a constant capacity K on
+// which goroutines started in fn perform blocking sends (not in a select), the number
+// of such potential sends must not exceed K (fn receives from it at most once).
+func (p *Program) sendCapacity(fn *ssa.Function) []pairResult {
+	var out []pairResult
+	for _, b := range fn.Blocks {
+		for _, in := range b.Instrs {
+			mk, ok := in.(*ssa.MakeChan)
+			if !ok {
+				continue
+			}
+			k, ok := constInt(mk.Size)
+			if !ok || k.Sign() == 0 {
+				continue
+			}
+			name := ""
+			for _, rf := range *mk.Referrers() {
+				if st, ok := rf.(*ssa.Store); ok {
+					if al, ok := st.Addr.(*ssa.Alloc); ok {
+						name = allocName(al)
+					}
+				}
+			}
+			if name == "" {
+				continue
+			}
+			senders := 0
+			unbounded := false
+			for _, a := range fn.AnonFuncs {
+				af := p.Facts(a)
+				for _, ab := range a.Blocks {
+					for _, ai := range ab.Instrs {
+						s, ok := ai.(*ssa.Send)
+						if !ok || chanName(af.Term(s.Chan)) != name {
+							continue
+						}
+						senders++
+						if lp := af.innermost[ab]; lp != nil {
+							for _, lt := range lp.Latches {
+								if af.reachWithin(lp, ab, lt, nil) {
+									unbounded = true
+								}
+							}
+						}
+					}
+				}
+			}
+			if senders == 0 {
+				continue
+			}
+			okc := !unbounded && int64(senders) <= k.Int64()
+			why := ""
+			if !okc {
+				why = "goroutines may block forever sending on " + name + ": " + fmtInt(senders) + " blocking send(s) but capacity " + k.String() + " and a single receive: the WaitGroup never completes and shutdown hangs"
+			}
+			out = append(out, pairResult{Desc: FnName(fn) + ": buffered channel " + name + " (cap " + k.String() + ") can absorb every blocking send of its " + fmtInt(senders) + " sender goroutine(s)", Pos: mk.Pos(), OK: okc, Why: why})
+		}
 	}
 	return out
 }
